@@ -20,6 +20,7 @@ import (
 	"os"
 	"sort"
 	"strings"
+	"time"
 
 	"golang.org/x/crypto/chacha20poly1305"
 	"golang.org/x/crypto/hkdf"
@@ -783,7 +784,9 @@ func SpecSegments(cph int, fk, np, p []byte) [][]byte {
 	return segs
 }
 
-func SpecEncrypt(m Manifest, fk, p []byte) []byte { return SpecEncryptStyle(m, GoStyle(m.K == ""), fk, p) }
+func SpecEncrypt(m Manifest, fk, p []byte) []byte {
+	return SpecEncryptStyle(m, GoStyle(m.K == ""), fk, p)
+}
 
 // SpecEncryptStyle: the document with its manifest line written in style sty.
 func SpecEncryptStyle(m Manifest, sty MStyle, fk, p []byte) []byte {
@@ -798,7 +801,21 @@ func SpecEncryptStyle(m Manifest, sty MStyle, fk, p []byte) []byte {
 // running the implementation
 
 // Consume reads r to its end with buffer sizes drawn from cr.
+// ErrHang: the stream neither delivered data nor ended within ReadDeadline on one Read call.
+var ErrHang = errors.New("harness: the stream neither delivered data nor ended within the deadline (hang)")
+
+// ReadDeadline bounds ONE Read call of a consumer.  A stream of this package never blocks on
+// anything but its (scripted, never blocking) source and its consumer, so a Read that takes this
+// long means the producing goroutine has gone away without closing the pipe.
+var ReadDeadline = 10 * time.Second
+
+// Consume reads r to its end with buffer sizes drawn from cr; every Read call is bounded by
+// ReadDeadline (the abandoned Read stays blocked in its goroutine).
 func Consume(r io.Reader, cr *hx.Rand) ([]byte, error) {
+	type res struct {
+		b   []byte
+		err error
+	}
 	var out []byte
 	for i := 0; i < 1<<24; i++ {
 		var sz int
@@ -810,11 +827,22 @@ func Consume(r io.Reader, cr *hx.Rand) ([]byte, error) {
 		default:
 			sz = cr.Range(1, 70000)
 		}
-		buf := make([]byte, sz)
-		n, err := r.Read(buf)
-		out = append(out, buf[:n]...)
-		if err != nil {
-			return out, err
+		ch := make(chan res, 1)
+		go func() {
+			buf := make([]byte, sz)
+			n, err := r.Read(buf)
+			ch <- res{buf[:n], err}
+		}()
+		t := time.NewTimer(ReadDeadline)
+		select {
+		case x := <-ch:
+			t.Stop()
+			out = append(out, x.b...)
+			if x.err != nil {
+				return out, x.err
+			}
+		case <-t.C:
+			return out, ErrHang
 		}
 	}
 	return out, errors.New("consumer: runaway stream")
@@ -862,6 +890,7 @@ var WrapNested func()
 
 // EncResult: what Encrypt was observed to do.
 type EncResult struct {
+	Hung     bool
 	CallErr  error
 	Doc      []byte
 	Status   string
@@ -906,6 +935,7 @@ func RunEncrypt(o Opts, data []byte, sc SItems, vault Vault, wfkLen int, cr *hx.
 	doc, rerr := Consume(stream, cr)
 	res.Doc = doc
 	res.Status, res.Known = StreamStatus(rerr)
+	res.Hung = errors.Is(rerr, ErrHang)
 	if m, _, _, _, perr := ParseHeader(doc); perr == nil {
 		res.Np = m.Np
 		res.HeaderOK = true
@@ -936,11 +966,13 @@ func (r EncResult) CoqWTable() string {
 
 // DecResult: what Decrypt was observed to do.
 type DecResult struct {
+	Hung      bool     // the output stream never ended (see ErrHang)
+	Touched   []string // optional methods of the source that the package called
 	NestedBad bool
 	CallErr   error
-	Out     []byte
-	Status  string
-	Known   bool
+	Out       []byte
+	Status    string
+	Known     bool
 }
 
 // Source errors of different identities: what a failing source returns instead of the scripted
@@ -953,9 +985,13 @@ var FailErrors = map[string]error{
 	"canceled":               context.Canceled,
 	"deadline":               os.ErrDeadlineExceeded,
 	"short_write":            io.ErrShortWrite,
+	"wrapped_closed_pipe":    fmt.Errorf("upstream: %w", io.ErrClosedPipe),
+	"os_closed":              os.ErrClosed,
+	"ctx_deadline":           context.DeadlineExceeded,
 }
 
-var FailNames = []string{"sentinel", "unexpected_eof", "wrapped_unexpected_eof", "closed_pipe", "canceled", "deadline", "short_write"}
+var FailNames = []string{"sentinel", "unexpected_eof", "wrapped_unexpected_eof", "closed_pipe", "canceled", "deadline", "short_write",
+	"wrapped_closed_pipe", "os_closed", "ctx_deadline"}
 
 // ErrWrappedEOF: an end of input reported as an error that wraps io.EOF (errors.Is(err, io.EOF)).
 var ErrWrappedEOF = fmt.Errorf("end of body: %w", io.EOF)
@@ -964,6 +1000,13 @@ var ErrWrappedEOF = fmt.Errorf("end of body: %w", io.EOF)
 type SrcOpts struct {
 	Fail    string
 	WrapEOF bool
+	// Iface: optional interfaces the source ALSO implements, all of them useless or lying - the
+	// package may only rely on Read: "" none; "seek_fail" io.Seeker whose Seek fails (a pipe-backed
+	// *os.File); "seek_lie" io.Seeker whose Seek reports success without moving; "poison" Seek
+	// (failing), ReadAt, WriteTo, ReadByte/UnreadByte, ReadRune, Len, Size, Close that return garbage
+	Iface string
+	// touched collects the optional methods that were called
+	touched *[]string
 	// Nested, when set, is called inside the unwrap callback before it answers (another stream of
 	// the package running in the window between the header parse and the first segment read)
 	Nested func()
@@ -981,8 +1024,72 @@ func (o SrcOpts) reader(sc SItems, data []byte) io.Reader {
 	if o.WrapEOF {
 		eof = ErrWrappedEOF
 	}
-	return NewXReader(sc, data, o.failErr(), eof)
+	base := NewXReader(sc, data, o.failErr(), eof)
+	note := func(m string) {
+		if o.touched != nil {
+			*o.touched = append(*o.touched, m)
+		}
+	}
+	switch o.Iface {
+	case "seek_fail":
+		return &seekOnly{r: base, note: note, fail: true}
+	case "seek_lie":
+		return &seekOnly{r: base, note: note}
+	case "poison":
+		return &poison{seekOnly{r: base, note: note, fail: true}}
+	}
+	return base
 }
+
+// IfaceNames: the values of SrcOpts.Iface.
+var IfaceNames = []string{"seek_fail", "seek_lie", "poison"}
+
+// seekOnly: a source with a Seek method that cannot seek.
+type seekOnly struct {
+	r    io.Reader
+	note func(string)
+	fail bool
+}
+
+func (s *seekOnly) Read(p []byte) (int, error) { return s.r.Read(p) }
+
+func (s *seekOnly) Seek(offset int64, whence int) (int64, error) {
+	s.note("Seek")
+	if s.fail {
+		return 0, errors.New("seek: illegal seek")
+	}
+	return offset, nil
+}
+
+// poison: every optional method a reader could have, none of them telling the truth.
+type poison struct{ seekOnly }
+
+func garbage(p []byte) {
+	for i := range p {
+		p[i] = 0xAA
+	}
+}
+
+func (s *poison) ReadAt(p []byte, off int64) (int, error) {
+	s.note("ReadAt")
+	garbage(p)
+	return len(p), nil
+}
+func (s *poison) WriteTo(w io.Writer) (int64, error) {
+	s.note("WriteTo")
+	g := make([]byte, 64)
+	garbage(g)
+	n, err := w.Write(g)
+	return int64(n), err
+}
+func (s *poison) ReadByte() (byte, error)         { s.note("ReadByte"); return 0xAA, nil }
+func (s *poison) UnreadByte() error               { s.note("UnreadByte"); return nil }
+func (s *poison) ReadRune() (rune, int, error)    { s.note("ReadRune"); return 0xAA, 1, nil }
+func (s *poison) UnreadRune() error               { s.note("UnreadRune"); return nil }
+func (s *poison) Len() int                        { s.note("Len"); return 0 }
+func (s *poison) Size() int64                     { s.note("Size"); return 0 }
+func (s *poison) Close() error                    { s.note("Close"); return nil }
+func (s *poison) ReadString(byte) (string, error) { s.note("ReadString"); return "\xaa", nil }
 
 // status classifies the terminal error of the output stream; the source's own error identity is
 // recognised first (it may coincide with an error the package itself uses).
@@ -1012,6 +1119,7 @@ func RunDecrypt(doc []byte, sc SItems, tbl UTable, optkn string, cr *hx.Rand) De
 
 func RunDecryptSrc(doc []byte, sc SItems, tbl UTable, optkn string, cr *hx.Rand, so SrcOpts) DecResult {
 	var res DecResult
+	so.touched = &res.Touched
 	stream, err := StartDecrypt(doc, sc, tbl, optkn, so)
 	if err != nil {
 		res.CallErr = err
@@ -1021,6 +1129,7 @@ func RunDecryptSrc(doc []byte, sc SItems, tbl UTable, optkn string, cr *hx.Rand,
 	out, rerr := Consume(stream, cr)
 	res.Out = out
 	res.Status, res.Known = so.status(rerr)
+	res.Hung = errors.Is(rerr, ErrHang)
 	return res
 }
 
@@ -1030,6 +1139,7 @@ func FinishDecrypt(stream io.Reader, got []byte, cr *hx.Rand, so SrcOpts) DecRes
 	out, rerr := Consume(stream, cr)
 	res.Out = append(append([]byte(nil), got...), out...)
 	res.Status, res.Known = so.status(rerr)
+	res.Hung = errors.Is(rerr, ErrHang)
 	return res
 }
 
